@@ -1,4 +1,5 @@
 import SqlObjVerif.Lemmas.Events
+import SqlObjVerif.Lemmas.EventsX
 /-!
 # C19 — row events fire exactly once, in order around the database write; listener edits of the
 create / update kwargs are what gets stored; appended post-callbacks run after the operation;
@@ -263,5 +264,42 @@ example :
       = [.a (.ins 1 [.int 0]), .a (.ev .created 0 (some 1) none), .b (.ins 1 [.int 0]),
          .a (.ev .created 1 (some 1) none), .a (.post 1000 1), .b (.ins 2 [.int 0]),
          .b (.ev .created 0 (some 1) none), .b (.ev .created 0 (some 2) none)] := by decide
+
+/-! ## the delivery path is what the SOURCE says: `events.listen` and `sqlmeta.send` as TRANSLATED on this run
+
+`listenX` / `sendX` run the PyVersion programs `vlib/extractors/pyevents.py` produced from /repo's AST on this very run
+(`Extracted/PyEvents.lean`; the extractor also checks `events.send = dispatcher.send`), pydispatch being a PARAMETER
+(`Model/EventsX.lean`: `dispatcher.connect` appends a connection; `dispatcher.send` calls every receiver connected for
+(sender, signal) exactly once in connection order — with the listeners read as data, `deliver`). -/
+
+/-- **`sqlmeta.send(signal, *args)` as translated is the model's `deliver`**: it is `dispatcher.send(signal,
+    sqlmeta.soClass, *args)` — the sender is the class, the arguments are passed on unchanged, nothing else happens —
+    so the kwargs / post_funcs the listeners leave and the calls made are those of `deliver signal id 0 listeners`
+    (the `send` of every operation of `Model/Events.lean`), for every signal, listener list and argument list. -/
+theorem C19_translated_send_eq_model (w : SW) (sig : Sig) (args : List PVal) :
+    sendX w (sigVal sig) (PyVer.Val.ofList args) (.dictv .nil)
+      = .ret { w with kw := (deliver sig (idOfArgs args) 0 w.L w.kw w.pf).1,
+                      pf := (deliver sig (idOfArgs args) 0 w.L w.kw w.pf).2.1,
+                      log := w.log ++ (deliver sig (idOfArgs args) 0 w.L w.kw w.pf).2.2 } .none
+          [sigVal sig, PyVer.Val.ofList args, .dictv .nil] :=
+  sendX_eq w sig args
+
+/-- **`events.listen(receiver, cls, signal)` as translated** appends exactly one connection `(receiver, signal, cls,
+    weak)` to the dispatcher's table — so receivers are connected in the order `listen` is called, which is the order
+    `deliver` walks — and `(weak receiver, signal)` to the class's `subclassClones` list (from which
+    `_makeSubclassConnectionsPost` clones the listeners to subclasses: `Chain.effective`). -/
+theorem C19_translated_listen_eq_model (w : LW) (recv cls sig also weak : PVal) :
+    listenX w recv cls sig also weak = .ret (listened w recv cls sig weak) .none [recv, cls, sig, also, weak]
+    ∧ (listened w recv cls sig weak).conns = w.conns ++ [(recv, sig, cls, weak)] :=
+  ⟨listenX_eq w recv cls sig also weak, rfl⟩
+
+/-- non-vacuity: a concrete send through the translated `sqlmeta.send` reaches two of three listeners, in order -/
+example :
+    let w : SW := ⟨[⟨.update, .setKey 0 (.int 5)⟩, ⟨.created, .observe⟩, ⟨.update, .observe⟩], [(1, .int 2)], [], []⟩
+    (match sendX w (sigVal .update) (PyVer.Val.ofList [.inst 0 0 7, .ref 6 0]) (.dictv .nil) with
+     | .ret w' _ _ => some (w'.kw, w'.log) | _ => none)
+      = some ([(1, .int 2), (0, .int 5)],
+              [.ev .update 0 (some 7) (some [(1, .int 2)]), .ev .update 2 (some 7) (some [(1, .int 2), (0, .int 5)])]) := by
+  decide
 
 end SqlObjVerif.Events
